@@ -91,6 +91,28 @@ def case_masks(s, limit):
     return out
 
 
+def generator(ctx):
+    """The program that regenerates the tables (anchor `ABI column filter of the generator`): TableGen.tla's builders are checked against the
+    ideal tables over all abstract kernel trees, the trees are exported and the REAL generator is run on them. The statement speaks about the
+    tables in the package, so a mismatch here is recorded and printed as a note - it is not a violation of C12."""
+    import tablegen
+    cases_f = ctx.path("tablegen_cases.json")
+    cfg = 'CONSTANTS\n  Dev = {}\n  OutFile = "%s"\nSPECIFICATION Spec\n%sCHECK_DEADLOCK FALSE\n'
+    run = "---- MODULE TGRun ----\nEXTENDS TableGenMC\nASSUME Export\n====\n"
+    ctx.tlc("TGRun", cfg % (cases_f, ""), name="TableGenExport", files={"TGRun.tla": run}, workers=1, timeout=600)
+    r = ctx.tlc("TableGenMC", cfg % (cases_f + ".unused", "INVARIANTS BuildersIdealInv GeneratedUnambiguousInv SharedIsCommonInv\n"), name="TableGenMC", workers=1, timeout=600)
+    if r["violated"]:
+        raise vlib.Machinery("TLC: %s violated in TableGenMC: the specification of the unchanged design does not satisfy its own invariant" % r["violated"])
+    cases = json.load(open(cases_f))
+    res = tablegen.replay(ctx, cases, len(cases) if ctx.tier == "thorough" else 60)
+    ctx.cov["generator_conformance"] = {"abstract_kernel_trees": len(cases), "generator_runs": res["ran"], "mismatches": len(res["mismatches"]), "skipped": res["skipped"]}
+    if res["skipped"]:
+        ctx.note("table generator not replayed: " + res["skipped"])
+    for m in res["mismatches"][:3]:
+        ctx.note("table generator differs from TableGen.tla (not a C12 verdict: the committed tables are what the statement is about): %s" % json.dumps(m)[:400])
+    ctx.cov["evaluations"] += res["ran"] * 5
+
+
 def check(ctx, replay=None):
     th = ctx.tier == "thorough"
     bindir = ctx.harness()
@@ -252,6 +274,7 @@ GetInfoInv == GetInfoOK
         raise vlib.Machinery("TLC (%s) and the witness search (%d findings) disagree" % (tlc_bad, len(viol)))
     for msg, w in viol:
         ctx.violation(msg, {"witness": w, "tlc_invariant": tlc_bad, "how": "./check C12 --replay <this file> (re-dumps the tables of the current tree)"})
+    generator(ctx)
     ctx.cov["distinct_nontrivial"] = sum(len(archs[v]["numbers"]) for v in tabled)
     ctx.cov["exhaustive"] = True
     ctx.cov["rule"] = ("every entry of the five tables in both directions (from a dump of the real arch package, taken in %d separate processes), every name shared with each "
